@@ -46,6 +46,8 @@ def gen_plan(rng, tier, run):
                 [s for s in f["recipe"]["sections"] if s["kind"] != "src"]
     plan = {"files": files,
             # process model: every invocation in a fresh module set (= its own process) or all in one process
+            # how paths are spelled on the command line: absolute, relative to the cwd, with a trailing slash
+            "path_style": rng.choice(["abs", "abs", "abs", "rel", "slash"]),
             "fresh": rng.random() < 0.5,
             "opts": common.gen_selection(rng),
             "rev": rng.random() < 0.4,
@@ -91,6 +93,10 @@ def execute(plan):
         if plan.get("bmc"):
             bump("environment:bmc-" + plan["bmc"])
         w.fresh_per_run = bool(plan.get("fresh"))
+        w.path_style = plan.get("path_style", "abs")
+        w.rel_dot = bool(plan.get("fresh"))
+        if w.path_style != "abs":
+            bump("path_style:" + w.path_style)
         bump("process_model:fresh" if w.fresh_per_run else "process_model:shared")
         w.mkdir("D")
         common.put_store(w, target, [dict(f, data=datas[f["name"]]) for f in files])
